@@ -191,6 +191,17 @@ def build(seed, prop, idx, o=None):
             feed = _pd.concat([feed, addf]).reset_index(drop=True)
             feed = feed.iloc[rng.permutation(len(feed))].reset_index(drop=True)
             el.meta["extra_state_in_feed"] = True
+    if o.get("call_one_contest") and estimator == "bootstrap":
+        # one contest is called (or stop-listed); preferably one whose name is a prefix of another contest's name
+        # ("AA_1" / "AA_10"): what happens to a called contest must not leak onto its neighbours
+        if el.district:
+            names = sorted({f"{a}_{b}" for a, b in zip(el.pre.postal_code.astype(str), el.pre.district.astype(str))})
+        else:
+            names = sorted(set(el.pre.postal_code.astype(str)))
+        pref = [n_ for n_ in names if any(m_ != n_ and m_.startswith(n_) for m_ in names)]
+        pick = (pref or names)[int(rng.integers(0, len(pref or names)))]
+        which = ["lhs_called_contests", "rhs_called_contests", "stop_model_call"][int(rng.integers(0, 3))]
+        call[which] = [pick]
     if o.get("feed_as_lists", bool(rng.random() < 0.2)):
         call["feed_as_lists"] = True
     if o.get("pre_from_earlier_run", bool(rng.random() < 0.1)) and not el.meta.get("cat_key") \
